@@ -9,6 +9,7 @@ Line protocol for C03 (write-back layer of the phase-equilibrium code).  Floats 
   vle.begin <obj> | vle.end | lle.begin | lle.end | sle.begin <obj> | sle.end      -> st ..
   vle.setup                                                 -> st .. idx=.. reuse=0|1|-   (cached `_nonzero`/`_index` of <obj>)
   vle.bublim V <y> | vle.dewlim V <x>                        -> st ..
+  vle.reactive <obj> <nonzero keys> <dmol> <dF>             -> ok   (a reactive flash ran on <obj>; leftovers are never read)
   sle.setup j                                               -> ok idx=.. pure=b | err nosolute|notindexed idx=.. pure=b
   vle.solve <raw>                                           -> v <clipped>
   vle.setflows reg|<v> | vle.allvap | vle.allliq | vle.frac V | vle.lever x0 <y>
@@ -128,6 +129,14 @@ def step (st : St) (line : String) : St × String :=
     match o.toNat? with
     | some o => ({ st with reg := none, vobj := o }, ans st)
     | none => (st, "bad-op")
+  | ["vle.reactive", o, nz, _dmol, _dF] =>
+    -- a reactive flash happened on object <o> (excluded from the property): only what `_setup` stored matters later
+    match o.toNat?, parseIdx nz with
+    | some o, some nz =>
+      match vleAfterReactive st.cls nz with
+      | some k => ({ st with vcaches := (o, k) :: st.vcaches.filter (fun p => p.1 != o) }, "ok")
+      | none => (st, "ok")
+    | _, _ => (st, "bad-op")
   | ["vle.end"] => (st, ans st)
   | ["vle.unmodelled"] => (st, "unmodelled")
   | ["vle.setup"] =>
@@ -297,6 +306,18 @@ def step (st : St) (line : String) : St × String :=
     | some t => let st' := { st with rows := vlleFinish st.cls st.rows t, total := none }; (st', ans st')
   | _ => (st, "bad-op")
 
-def main : IO Unit := Driver.loop ({} : St) step
+/-- The monitored hypotheses belong to theorems whose premise is a non-negative input.  When the flows at `begin`
+were already negative (a reactive flash, excluded from the property, can leave its limiting reactant negative)
+an unmet monitor says nothing: it is reported as a tag instead. -/
+def step' (st : St) (line : String) : St × String :=
+  let (st', a) := step st line
+  let n := st'.cls.n
+  let tol := 0.0 - 1e-12 * scaleOf n st'.snap
+  let preOk := (List.range n).all fun i =>
+    get st'.snap.g i >= tol && get st'.snap.l i >= tol && get st'.snap.L i >= tol && get st'.snap.s i >= tol
+  if preOk then (st', a)
+  else (st', joinWith " " ((splitWs a).map fun t => if t.startsWith "unmet:" then "tag:input-negative-" ++ (t.drop 6).toString else t))
+
+def main : IO Unit := Driver.loop ({} : St) step'
 
 end Driver.C03
